@@ -5,11 +5,19 @@ from mc import core, det, domains, sse
 PROPERTY = 'C06'
 ENGINE = 'E1 bounded-exhaustive enumeration: all keyword-order permutations of small databases (label tables); all block-count profiles in a window x two setups (array placement)'
 LEVEL = 'model_checking'
+DIRECTED_ADDITIONS = 'ten setups per deep case (no block at one slot in all), DP17 in-bucket order, copies of one scheme object, 5400-posting label tables in three keyword orders, empty posting lists'      # members added during the seeded-change campaign (DESIGN 7); counted under their own vacuity counters
+
 LABEL_SCHEMES = ['CJJ14.PiBas', 'CJJ14.PiPack', 'CJJ14.PiPtr', 'CJJ14.Pi2Lev', 'CT14.Pi', 'ANSS16.Scheme3']
 ARRAY_SCHEMES = ['CJJ14.PiPtr', 'CJJ14.Pi2Lev', 'CGKO06.SSE1', 'DP17.Pi']
 
 
 def describe(tier):
+    d = _describe(tier)
+    d['rule'] = d['rule'] + ' Directed additions: ' + DIRECTED_ADDITIONS + '.'
+    return d
+
+
+def _describe(tier):
     n = 7 if tier == 'quick' else 9
     return {
         'rule': 'part A (PiBas, PiPack, PiPtr, Pi2Lev, CT14, ANSS16): case = (scheme, configuration point, partition of N<=%d with <= 4 '
